@@ -1,6 +1,7 @@
 """Obligation bookkeeping shared by the engines."""
 from __future__ import annotations
 
+import os
 import time
 from typing import Callable, Dict, List, Optional, Sequence
 
@@ -84,6 +85,10 @@ def nice_model(hyps, goal, nice_vars, timeout_ms=4000):
     return None
 
 
+def _as_ob(id, v, engine, sample=None):
+    return ob(id, v.status, kind="proof", engine=engine, backend=v.backend, secs=v.secs, reason=v.reason, sample=sample)
+
+
 class Proof:
     """A proof script: every step is itself a discharged obligation; later steps
     may use earlier ones; nothing is assumed."""
@@ -104,7 +109,7 @@ class Proof:
         return self.hyps + list(self.facts.values())
 
     def have(self, name: str, goal, by: Optional[Sequence] = None, use: Sequence[str] = (),
-             backends=("z3", "gb"), timeout_ms=None, sample=None) -> bool:
+             backends=("z3", "gb"), timeout_ms=None, sample=None, optional=False) -> bool:
         """by: explicit hypothesis terms (subset of self.hyps); use: names of
         earlier facts.  by=None means every hypothesis and every earlier fact."""
         full = self.all_hyps()
@@ -115,11 +120,33 @@ class Proof:
         o = discharge(f"{self.prefix}/{name}", hy, goal, backends=backends, engine=self.engine,
                       timeout_ms=timeout_ms or self.timeout_ms, cex_builder=self.cex_builder,
                       full_hyps=full, seed=self.seed, sample=sample, nice=self.nice)
-        self.obs.append(o)
+        if os.environ.get("VERIF_DEBUG"):
+            print(f"   have {name}: {o['status']} {o['backend']} {o['secs']:.2f}s {str(o.get('reason',''))[:100]}", flush=True)
         if o["status"] == "discharged":
+            self.obs.append(o)
             self.facts[name] = goal
             return True
+        if not optional:
+            self.obs.append(o)
         return False
+
+
+def _proof_have_cert(self, name, goal, combos, optional=False):
+    """Step justified by an explicit linear-combination certificate over hypotheses/facts."""
+    v = B.cert_check(self.all_hyps(), goal, combos)
+    o = _as_ob(f"{self.prefix}/{name}", v, self.engine, sample={"goal": str(goal)[:200], "certificate_terms": len(combos)})
+    if os.environ.get("VERIF_DEBUG"):
+        print(f"   have {name}: {o['status']} cert {o['secs']:.2f}s {str(o.get('reason',''))[:100]}", flush=True)
+    if o["status"] == "discharged":
+        self.obs.append(o)
+        self.facts[name] = goal
+        return True
+    if not optional:
+        self.obs.append(o)
+    return False
+
+
+Proof.have_cert = _proof_have_cert
 
 
 # ---------------------------------------------------------------------------
@@ -149,14 +176,14 @@ def mval(m, term) -> float:
     return float(str(v).rstrip("?"))
 
 
-def must_fail(id: str, hyps: Sequence, wrong_goal, timeout_ms=5000, engine="symrun"):
+def must_fail(id: str, hyps: Sequence, wrong_goal, timeout_ms=5000, engine="symrun", hint: Sequence = ()):
     """Guard against vacuity: a deliberately wrong clause has to be refutable
     under the same hypotheses (expected status: 'refuted')."""
     t0 = time.time()
-    v = B.z3_check(hyps, wrong_goal, timeout_ms)
+    v = B.z3_check(list(hyps) + list(hint), wrong_goal, timeout_ms)
     status, backend = v.status, v.backend
     if status == "undecided":
-        m = get_model(hyps, timeout_ms=timeout_ms)
+        m = get_model(hyps, extra=hint, timeout_ms=timeout_ms)
         if m is not None:
             try:
                 val = m.eval(wrong_goal, model_completion=True)
@@ -166,3 +193,29 @@ def must_fail(id: str, hyps: Sequence, wrong_goal, timeout_ms=5000, engine="symr
                 pass
     return ob(id, status, kind="guard", engine=engine, backend=backend, secs=time.time() - t0,
               expect="refuted", reason=v.reason)
+
+
+def free_consts(e):
+    seen, out, st = set(), {}, [e]
+    while st:
+        t = st.pop()
+        if t.get_id() in seen:
+            continue
+        seen.add(t.get_id())
+        if z3.is_const(t) and t.decl().kind() == z3.Z3_OP_UNINTERPRETED:
+            out[t.decl().name()] = t
+        st.extend(t.children())
+    return out
+
+
+def hyps_over(hyps: Sequence, allowed_fresh, fresh_marker="!"):
+    """Select the hypotheses whose run-introduced symbols (names containing '!')
+    all belong to ``allowed_fresh`` -- the hypotheses a lemma about those symbols
+    can possibly need.  Dropping hypotheses is always sound."""
+    allowed = {str(a) for a in allowed_fresh}
+    out = []
+    for h in hyps:
+        names = [n for n in free_consts(h) if fresh_marker in n]
+        if all(n in allowed for n in names):
+            out.append(h)
+    return out
